@@ -239,8 +239,8 @@ func (w *World) Auth(id, cacheSize int, aggQC bool) *cert.Authority {
 	cfg, ok := w.cfgs[key]
 	if !ok {
 		opts := []core.RuntimeOption{core.WithSyncVerification()}
-		if cacheSize > 0 {
-			opts = append(opts, core.WithCache(uint(cacheSize)))
+		if cacheSize != 0 {
+			opts = append(opts, core.WithCache(uint(cacheSize))) // negative: the largest capacities an operator can write ("never evict")
 		}
 		if aggQC {
 			opts = append(opts, core.WithAggregateQC())
